@@ -190,7 +190,7 @@ class DdeArm(Arm):
     name = "dde"
     budget = {"quick": 800, "thorough": 6000}
     min_per_shard = 12
-    required_labels = ("delayed_var_not_first", "two_delays")
+    required_labels = ("delayed_var_not_first", "two_delays", "sparse_two_delays")
 
     def strategy(self, ctx):
         @st.composite
@@ -201,7 +201,7 @@ class DdeArm(Arm):
             spec, pairs = add_past_terms(draw, gen.uniquify_init(base), mult_rate=3)
             rm = RefModel(spec)
             fl = st.floats(-1.5, 1.5, allow_nan=False).map(lambda v: round(v, 3))
-            return {"spec": spec, "cfg": {"vectorize": False, "dt": 0.01},
+            return {"spec": spec, "cfg": {"vectorize": False, "dt": 0.01, "sparse": draw(st.sampled_from([False, False, True]))},
                     "hist": [draw(fl), draw(fl), draw(fl), draw(st.sampled_from([1.0, 2.0]))],
                     "ts": draw(st.lists(st.floats(0.5, 3.0, allow_nan=False).map(lambda v: round(v, 2)), min_size=2, max_size=2)),
                     "ys": draw(gen.probes_strategy(len(rm.state_paths), n=2, lo=-1.5, hi=1.5))}
@@ -249,10 +249,14 @@ class DdeArm(Arm):
             lab.append("two_delays")
         if any(pos[v][0] != 0 for v in dvars):
             lab.append("delayed_var_not_first")
+        if case["cfg"].get("sparse"):
+            lab.append("sparse")
+            if len(delays) >= 2:
+                lab.append("sparse_two_delays")
         res.labels = lab
         res.nontrivial = len(delays) >= 2 or any(pos[v][0] != 0 for v in dvars)
         try:
-            jf, jargs, jnames, jsvm = get_jac(spec, 0.01, solver="scipy")
+            jf, jargs, jnames, jsvm = get_jac(spec, 0.01, sparse=bool(case["cfg"].get("sparse")), solver="scipy")
         except HarnessError:
             raise
         except Exception as e:
@@ -291,6 +295,12 @@ class DdeArm(Arm):
                 return res
             try:
                 J0, Jt = out
+                if case["cfg"].get("sparse"):
+                    # sparse=True changes only the container
+                    if not all(hasattr(j, "toarray") for j in [J0] + list(Jt)):
+                        res.violate("sparse-container", f"sparse=True returned {[type(j).__name__ for j in [J0] + list(Jt)]}")
+                        return res
+                    J0, Jt = J0.toarray(), [j.toarray() for j in Jt]
                 J0 = np.asarray(J0, dtype=float)
                 Jt = [np.asarray(j, dtype=float) for j in Jt]
             except Exception as e:
